@@ -1,6 +1,7 @@
 # C02: a result is a pure function of source, options and visible files.
 import hashlib
 import json
+import re
 import os
 import random
 
@@ -122,6 +123,9 @@ def run(ctx):
         for h in hists:
             for oj in observed:
                 cases.append((h, oj))
+        ctx.extra["history_cases_enumerated"] = len(cases)
+        if len(cases) > 120000:       # every history x every observed job is > 1e6 runs of up to 4 compilations: a seeded sample is executed
+            cases = rnd.sample(cases, 120000)
     hjobs = [{"id": i, "op": "history", "fresh_thread": True, "prior": [pool[p - 1] for p in h], "job": pool[oj - 1]}
              for i, (h, oj) in enumerate(cases)]
     hres = C.run_cases(hjobs, PID + "-hist")
@@ -162,6 +166,27 @@ def run(ctx):
                                "r": fp(pr), "rn": fpn(pr)})
             if len(rs) != len(tc[t]):
                 ctx.violation("a compiling thread died", {"threads": tc, "observed": x})
+    # ---- unique-id(): distinct valid identifiers within one compilation (loops, functions, mixins, an imported file, both spellings)
+    UID = [("@for $i from 1 through 400 { a { u: unique-id(); } }\n", {}),
+           ("@use \"sass:string\";\n@function f() { @return string.unique-id(); }\n@mixin m { u: unique-id(); u: f(); }\n"
+            "@for $i from 1 through 60 { a { @include m; @each $k in 1 2 3 { u: f(); } } }\n", {}),
+           ("@import \"lib\";\n@for $i from 1 through 50 { a { u: unique-id(); u: g(); } }\n",
+            {"_lib.scss": "@function g() { @return unique-id(); }\nb { u: unique-id(); u: g(); }\n"}),
+           ("a { u: unique-id(); }\nb { u: unique-id(); }\n", {})]
+    ujobs = [{"id": i, "src": s_, "files": fl} for i, (s_, fl) in enumerate(UID)]
+    ujobs += [{"id": len(UID) + i, "op": "history", "fresh_thread": False, "prior": [{"src": UID[0][0]}], "job": {"src": UID[0][0]}} for i in range(2)]
+    ures = C.run_cases(ujobs, PID + "-uid")
+    uidmeta = {}
+    for j, x in zip(ujobs, ures):
+        vals = re.findall(r"u: ([^;]*);", x.get("css") or "")
+        ok = [v for v in vals if re.fullmatch(r"-?[A-Za-z_][A-Za-z0-9_-]*", v)]
+        ctx.count(["uid", j["id"]], nontrivial=bool(vals))
+        eid = "uid-%d" % j["id"]
+        uidmeta[eid] = (j, vals)
+        if x.get("outcome") != "css" or not vals:
+            ctx.violation("unique-id() job did not produce values: %s" % x.get("outcome"), {"job": j, "observed": x})
+            continue
+        events.append({"e": "uids", "id": eid, "j": 0, "t": 0, "r": "", "rn": "", "n": len(vals), "distinct": len(set(vals)), "valid": len(ok)})
     tpath = os.path.join(C.WORK, "trace-C02-%d.ndjson" % os.getpid())
     with open(tpath, "w") as f:
         for e in events:
@@ -174,6 +199,12 @@ def run(ctx):
     ctx.validated += len(cases) + len(tcases) + len(pool)
     for kind, v in tr.prints:
         if kind == "REJECT":
+            if str(v["id"]).startswith("uid-"):
+                uj, vals = uidmeta[v["id"]]
+                dup = sorted({u for u in vals if vals.count(u) > 1})[:5]
+                ctx.violation("unique-id() values within one compilation are not distinct valid identifiers (%d values, %d distinct; e.g. %s)"
+                              % (len(vals), len(set(vals)), dup or vals[:3]), {"job": uj, "values": vals[:20], "spec": "Trace_History.UidsOk"})
+                continue
             j = v["job"]
             job = pool[j - 1]
             what = "result of a job differs from its fresh-process result"
@@ -187,4 +218,4 @@ def run(ctx):
     ctx.sample({"threads": tcases[0]})
     os.remove(tpath)
     ctx.assumptions += ["thread interleavings inside a compilation are those the OS scheduler produced (barrier-released threads), not enumerated",
-                        "unique-id()/random() values are never printed by the jobs (only compared), as the property allows them to vary"]
+                        "the history/thread jobs never print unique-id()/random() values (they may vary); unique-id() distinctness/validity is judged by separate jobs of up to 400 calls"]
